@@ -218,6 +218,21 @@ def oracle(sc):
     why = oracle_tables(m) if sc["kind"] != "latectr" else None
     if why:
         return why
+    # "replacing the tags inside text tags by placeholder characters": after do_tree no text tag has a child node left
+    def unreplaced(t):
+        if t[0] in sc["tt"] and t[4]:
+            return t[0]
+        for k in t[4]:
+            r_ = unreplaced(k)
+            if r_:
+                return r_
+        return None
+    for tr in trace:
+        if tr[0] == "op" and tr[1][0] == "do":
+            u = unreplaced(tr[2][1])
+            if u:
+                return "after do_tree the text tag <%s> still has child nodes (its content was not replaced by placeholders): %s" % (
+                    u, json.dumps(tr[2][1])[:300])
     if sc.get("oracle") == "roundtrip":
         origs = [st[1] for st in sc["steps"] if st[0] == "do"]
         undone = [tr for tr in trace if tr[0] == "undo"]
